@@ -25,7 +25,7 @@ RULE = ("ChaosModel(seed, cfg): plain / grid / line / continuous (wrapping or no
         "inside timesteps; non-trivial = >=1 pick and >=1 shuffle over >=3 agents and >=1 perturbation fired between "
         "two draws; distinct = (world, system mix, perturbation kinds and placement); cross-environment arm: fresh "
         "interpreters under other PYTHONHASHSEEDs and real batch_run workers"
-        "; also: str / bytes / float label seeds, environments handed from a builder model to the run model (Environment.set_model), a grid-walk system that reorders the neighbour lists it gets from the world in place")
+        "; also: str / bytes / float label seeds, environments handed from a builder model to the run model (Environment.set_model), a grid-walk system that reorders the neighbour lists it gets from the world in place; secondary arm: a Core-only model in fresh interpreters with and without numpy / ECAgent.Environments imported beforehand")
 COMPONENTS = {"real": ["ECAgent.Core.Model.random", "Environment.get_random_agent / shuffle / get_agents",
                        "SpaceWorld / GridWorld / LineWorld add_agent, move, remove_agent", "AgentCollector",
                        "ECAgent.Batching.batch_run with the real multiprocessing.Pool (cross-environment arm)"],
@@ -295,7 +295,33 @@ def post_batch(tier, seed):
             if pair != [here[j], here[j]]:
                 return {"violation": {"kind": "trajectory-depends-on-worker-process", "arm": how, "seed": js[j][0],
                                       "cfg": js[j][1], "digest_here": here[j], "digests_workers": pair}}
-    return {"evidence": {"cross_environment_arm": {
+    # what the process has imported is ambient state too: a model that needs nothing but ECAgent.Core must run the same in an
+    # interpreter that never loaded numpy and in one that did (the harness itself always has numpy loaded, hence real processes)
+    cjobs = []
+    for i in range(6 if tier == "quick" else 24):
+        rng = random.Random(run_seed(seed, "C07-core", i))
+        cjobs.append([rng.randint(0, 10 ** 9), rng.choice([5, 20, 33, 40, 64, 100]), rng.randint(3, 10)])
+    modes = ["bare", "numpy-first", "environments-first", "grid-model-first"]
+    core = {}
+    for mode in modes:
+        env = dict(os.environ, PYTHONHASHSEED="11", VERIF_REPO=os.environ.get("VERIF_REPO", "/repo"))
+        cp = subprocess.run([sys.executable, os.path.join(os.path.dirname(os.path.abspath(__file__)), "chaos_core.py"), mode],
+                            input=json.dumps(cjobs), capture_output=True, text=True, env=env, timeout=900)
+        line = [ln for ln in cp.stdout.splitlines() if ln.startswith("DIGESTS ")]
+        if cp.returncode != 0 or not line:
+            from simkit.core import HarnessError
+            raise HarnessError(f"chaos_core {mode} failed: {cp.stdout[-500:]} {cp.stderr[-1500:]}")
+        core[mode] = json.loads(line[0][8:])
+        bare_ok = "NOT-BARE" not in cp.stdout if mode == "bare" else None
+        if mode == "bare":
+            bare = bare_ok
+    for mode in modes[1:]:
+        for j, (a, b) in enumerate(zip(core["bare"], core[mode])):
+            if a != b:
+                return {"violation": {"kind": "trajectory-depends-on-what-the-process-has-imported", "mode": mode,
+                                      "seed_pop_horizon": cjobs[j], "digest_bare_interpreter": a, "digest_" + mode: b}}
+    return {"evidence": {"core_only_arm": {"jobs": len(cjobs), "modes": modes, "bare_interpreter_really_without_numpy": bare},
+                         "cross_environment_arm": {
         "configurations": n, "fresh_interpreters_with_hashseeds": hashseeds, "real_batch_run_arms": [a for a, _ in arms],
         "wall_s": round(time.time() - t0, 2),
         "note": "real processes / hash seeds (not simulated); every digest equals the in-process reference"}}}
